@@ -134,6 +134,17 @@ theorem replies_not_cross_wired (k k' : Nat) (ops : List Op) :
   intro n q d h
   exact ((ninv_init k k').run ops).deliv _ h
 
+/-- (at most one reply) No caller's port is ever served twice, and at any moment a reply
+port exists in at most one place — stored in the proxy, already served, or still travelling
+in the proxy's mailbox: a repeated `Reply` frame for the same tag, or a late one for an
+abandoned call, reaches nobody. -/
+theorem reply_at_most_once (k k' : Nat) (ops : List Op) :
+    let n := (Net.init k k').run ops
+    (n.delivered.map (·.1)).Nodup ∧ ∀ q, n.portCount q ≤ 1 := by
+  intro n
+  have h := (uinv_init k k').run ops
+  exact ⟨h.delivered_nodup, h.once⟩
+
 /-- The C20 oracle holds of the model: if the real actor answers every request `req` with
 `reply req`, an observer sees the received sequence as an in-order sub-sequence of the sent
 one and every caller that got a reply got `reply` of its own request. -/
@@ -218,6 +229,7 @@ example :
 #print axioms C20.delivered_at_rest
 #print axioms C20.per_sender_order
 #print axioms C20.replies_not_cross_wired
+#print axioms C20.reply_at_most_once
 #print axioms C20.ok_model
 #print axioms C20.proxies_mirror_control_stream
 #print axioms C20.groups_mirror_control_stream
